@@ -284,3 +284,78 @@ pub fn run_threaded_case(c: &Value) -> Value {
     };
     json!({"result": result, "events": events, "final": bytes_json(&sink.contents()), "fail": result != "ok"})
 }
+
+// ------------------------------------------------------------------------------------------
+// Race rounds: the producer's drop and the consumer's blocking call are released from a barrier
+// at (almost) the same instant, thousands of times, with a swept sub-microsecond offset.  This is
+// the window in which a lost wake-up or a non-atomic check-then-wait shows up.
+// ------------------------------------------------------------------------------------------
+pub fn run_race_case(c: &Value) -> Value {
+    let rounds = c["rounds"].as_u64().unwrap_or(1000);
+    let seed = c["seed"].as_u64().unwrap_or(1);
+    let mut rng = Rng(seed | 1);
+    let mut out: Vec<Value> = Vec::with_capacity(rounds as usize);
+    let progs = ["switch_await", "ecw", "len"];
+    for r in 0..rounds {
+        let inmem = rng.next() % 2 == 0;
+        let prog = progs[(rng.next() % 3) as usize];
+        let k = (rng.next() % 3) as usize; // writes before the drop
+        let off_p = rng.next() % 400;
+        let off_c = rng.next() % 400;
+        let sink = SharedSink::with(PRE.to_vec());
+        let (mut b, mut w): (TempFileBuffer<SharedSink>, TempFileBufferWriter<SharedSink>) = TempFileBuffer::new(inmem);
+        let barrier = Arc::new(std::sync::Barrier::new(2));
+        if prog == "switch_await" {
+            b.switch(sink.clone());
+        }
+        let switched_late = false;
+        let bp = barrier.clone();
+        let producer = std::thread::spawn(move || {
+            for i in 0..k {
+                let _ = w.write_all(&[(i + 1) as u8]);
+            }
+            bp.wait();
+            for _ in 0..off_p { std::hint::spin_loop(); }
+            drop(w);
+        });
+        let (tx, rx) = mpsc::channel();
+        let bc = barrier.clone();
+        let csink = sink.clone();
+        let prog_s = prog.to_string();
+        std::thread::spawn(move || {
+            let mut b = b;
+            bc.wait();
+            for _ in 0..off_c { std::hint::spin_loop(); }
+            let res = std::panic::catch_unwind(std::panic::AssertUnwindSafe(move || match prog_s.as_str() {
+                "switch_await" => {
+                    if switched_late {
+                        // switch may already have happened before the barrier: switching twice panics, so only when needed
+                    }
+                    let f = b.await_real_file();
+                    ("file", f.contents())
+                }
+                "ecw" => {
+                    let mut o = csink.clone();
+                    let _ = b.expect_closed_write(&mut o);
+                    ("file", csink.contents())
+                }
+                _ => {
+                    let n = b.len().unwrap_or(9999);
+                    ("len", vec![n as u8])
+                }
+            }));
+            let _ = tx.send(res);
+        });
+        let got = rx.recv_timeout(Duration::from_secs(4));
+        let _ = producer.join();
+        match got {
+            Err(_) => {
+                out.push(json!({"round": r, "prog": prog, "k": k, "tag": "hang", "val": []}));
+                return json!({"result": format!("hang: round {} ({}, {} writes): the blocking call did not return after the producer was dropped", r, prog, k), "rounds": out, "fail": true});
+            }
+            Ok(Err(_)) => { out.push(json!({"round": r, "prog": prog, "k": k, "tag": "panic", "val": []})); }
+            Ok(Ok((tag, val))) => { out.push(json!({"round": r, "prog": prog, "k": k, "tag": tag, "val": bytes_json(&val)})); }
+        }
+    }
+    json!({"result": "ok", "rounds": out, "fail": false})
+}
